@@ -47,35 +47,42 @@ Proof. exists w_panic. vm_compute. reflexivity. Qed.
 
 Definition is_ok {A} (m : M A) : bool := match m with Done (ROk _) => true | _ => false end.
 
+(* the mass best list is a single unit that is not a mass unit *)
+Definition mass_best_bad (c : converter) : bool :=
+  match c_best c Mass with
+  | SUnified [(_, i)] =>
+      match nth_error (c_units c) i with
+      | Some u => negb (pq_eqb (quantity u) Mass)
+      | None => false
+      end
+  | _ => false
+  end.
+
+Lemma mass_best_bad_not_ok c :
+  mass_best_bad c = true -> ~ best_store_ok (c_units c) Mass (c_best c Mass).
+Proof.
+  unfold mass_best_bad. intros Hb H.
+  destruct (c_best c Mass) as [l|m i]; [|exact (Bool.diff_false_true Hb)].
+  destruct l as [|[th i] l']; [exact (Bool.diff_false_true Hb)|].
+  destruct l' as [|x l'']; [|exact (Bool.diff_false_true Hb)].
+  cbn [best_store_ok] in H. destruct H as (_ & Hq & _).
+  destruct (Hq th i (or_introl eq_refl)) as (u & Hu & Hqu).
+  rewrite Hu, Hqu in Hb. exact (Bool.diff_false_true Hb).
+Qed.
+
 Lemma best_ok_refuted_before_fix :
   exists files c, build cfg_old files = Done (ROk c) /\
                   ~ best_store_ok (c_units c) Mass (c_best c Mass).
 Proof.
   exists w_accept.
-  destruct (build cfg_old w_accept) as [[c|e]|s] eqn:E.
-  2:{ exfalso. assert (H : is_ok (build cfg_old w_accept) = true) by (vm_compute; reflexivity).
-      rewrite E in H. discriminate. }
-  2:{ exfalso. assert (H : is_ok (build cfg_old w_accept) = true) by (vm_compute; reflexivity).
-      rewrite E in H. discriminate. }
-  exists c. split; [reflexivity|].
   assert (Hb : match build cfg_old w_accept with
-               | Done (ROk c) =>
-                   match c_best c Mass with
-                   | SUnified [(_, i)] =>
-                       match nth_error (c_units c) i with
-                       | Some u => pq_eqb (quantity u) Mass
-                       | None => true
-                       end
-                   | _ => true
-                   end
-               | _ => true
-               end = false) by (vm_compute; reflexivity).
-  rewrite E in Hb. intro H.
-  destruct (c_best c Mass) as [l|m i]; [|discriminate].
-  destruct l as [|[th i] [|? ?]]; try discriminate.
-  cbn [best_store_ok] in H. destruct H as (_ & Hq & _).
-  destruct (Hq th i (or_introl eq_refl)) as (u & Hu & Hqu).
-  rewrite Hu in Hb. rewrite Hqu in Hb. discriminate.
+               | Done (ROk c) => mass_best_bad c
+               | _ => false
+               end = true) by (vm_compute; reflexivity).
+  destruct (build cfg_old w_accept) as [[c|e]|s].
+  - exists c. split; [reflexivity | apply mass_best_bad_not_ok; exact Hb].
+  - exfalso. exact (Bool.diff_false_true Hb).
+  - exfalso. exact (Bool.diff_false_true Hb).
 Qed.
 
 (* after the repair both witnesses are build errors *)
